@@ -55,7 +55,7 @@ HARNESSES = {
     # (value lists are deliberately NOT ascending: labels must follow the declared order of the runs)
     "det3":      dict(pipe="det", mode="product", a=[3, 1, 2], steps=1, seed=None, hooks=True),
     # the swept values are TEXT that denotes numbers ('1e3'-like numbers of a YAML file arrive like this)
-    "det3t":     dict(pipe="det", mode="product", a=["3", "1", "2"], steps=1, seed=None, hooks=False),
+    "det3t":     dict(pipe="typed", mode="product", a=["3", "1", "2"], steps=1, seed=None, hooks=False),
     # a model that is disabled in the configuration, switched on by the sweep
     "enflag":    dict(pipe="enflag", mode="product", a=[2, 1], en=[False, True], steps=1, seed=None, hooks=False),
     # an input file given relative to the observation's working directory
@@ -87,6 +87,14 @@ HARNESSES = {
                       hooks=False),
     "collideS":  dict(pipe="collide", mode="sequential", a=[1, 2], b=[10, 20], c=[5, 6], steps=1, seed=None, hooks=False),
 }
+
+
+def typed(detector, a=0):
+    """probe sensitive to the KIND of value it receives: a number is written as it is, anything else as -999"""
+    shape = detector.geometry.shape
+    ok = isinstance(a, (int, float)) and not isinstance(a, bool)
+    detector.pixel.array = np.full(shape, float(a) if ok else -999.0)
+    detector.photon.array = np.full(shape, 1.0 if isinstance(a, int) else (2.0 if ok else 3.0))
 
 
 def timed(detector, a=3.0, noise=False):
@@ -129,6 +137,9 @@ def build(h, with_dask, tmp):
         groups = {"photon_collection": [("vp.probes.encode", "enc", {"a": 0.0, "b": 0.0})],
                   "charge_collection": [("vp.probes.stateful", "st", {"inc": 1.0, "lst": [], "dct": {}})]}
         ka, kb = "pipeline.photon_collection.enc.arguments.a", "pipeline.charge_collection.st.arguments.inc"
+    elif h["pipe"] == "typed":
+        groups = {"photon_collection": [("props.c07_parallel.typed", "ty", {"a": 0})]}
+        ka, kb = "pipeline.photon_collection.ty.arguments.a", None
     elif h["pipe"] == "noisy":
         groups = {"charge_collection": [("vp.probes.noisy", "nz", {"a": 0.0, "sigma": 1.0})]}
         ka, kb = "pipeline.charge_collection.nz.arguments.a", "pipeline.charge_collection.nz.arguments.sigma"
